@@ -156,6 +156,20 @@ reg('C04', 'exploration',
     'characters that reproduce a failure on their own.',
     'DESIGN.md §2 C04')
 
+reg('C10', 'fault_enumeration',
+    'crash failpoints (os._exit at every file-system mutation boundary seen by an out-of-tree '
+    'audit-hook tracer) and exception failpoints (every rule-emission hook entry) enumerated '
+    'completely per scenario, each followed by one and two ordinary runs of the back end',
+    'For each scenario the uninterrupted run is traced; every boundary k (before/after open, '
+    'before/after close, remove, utime, mkdir/replace; truncated-write variants in thorough) is '
+    'replayed from a restored tree copy with the bfg9000 process killed at k, and every hook '
+    'entry with ENOSPC / RuntimeError / KeyboardInterrupt raised; the follow-up must either exit '
+    'non-zero or leave the build file and declared regeneration outputs byte-equal to the '
+    'uninterrupted run. A raising script must leave the build file untouched.',
+    'Trusted: kill modelled at Python-level boundaries (kernel-level torn writes only as '
+    'truncation variants); tree copies preserve ns mtimes; refninja for the Ninja half.',
+    'DESIGN.md §2 C10')
+
 NOT_APPLICABLE = {}
 
 ALL = ['C%02d' % i for i in range(1, 21)]
